@@ -26,8 +26,9 @@ def flatten_forest(forest, out=None):
     return out
 
 
-def elements_for(child_counts, reps, type_rot=0, names=None):
-    elems = [{'name': 'schema', 'type': None, 'repetition': None, 'num_children': 0}]
+def elements_for(child_counts, reps, type_rot=0, names=None, root_rep=None):
+    # the root is the message itself: some writers label it REQUIRED (or anything else); the label never counts towards a level
+    elems = [{'name': 'schema', 'type': None, 'repetition': root_rep, 'num_children': 0}]
     # number of top-level trees: derive by walking
     tops = 0
     i = 0
@@ -109,7 +110,7 @@ def exhaustive(maxn):
         for f in forests(n):
             cc = flatten_forest(f)
             for rot, reps in enumerate(itertools.product((0, 1, 2), repeat=n)):
-                yield record(elements_for(cc, reps, rot % 8))
+                yield record(elements_for(cc, reps, rot % 8, root_rep=(None, None, 0, 1, 2)[rot % 5]))
 
 
 def random_tree(rng, nodes, maxdepth):
@@ -150,7 +151,7 @@ def sampled(rng, count, lo, hi, maxdepth=12):
             names[i] = names[j] + rng.choice(['_usd', 'x', '.', '0'])
         if rng.random() < 0.1:
             names[rng.randrange(len(names))] = 'x' * 3000
-        elems = elements_for(cc, reps, rng.randrange(8), names)
+        elems = elements_for(cc, reps, rng.randrange(8), names, root_rep=rng.choice([None, None, 0, 1, 2]))
         for e in elems[1:]:
             if e.get('type') is not None and rng.random() < 0.3:
                 e['logical'] = rng.choice(logical_pool)
